@@ -7,7 +7,7 @@ import time
 from .astdb import VERIF, AnalysisBroken
 
 KNOWN = os.path.join(VERIF, "known_findings.json")
-EVID = os.path.join(VERIF, "evidence")
+EVID = os.environ.get("CMIV_EVIDENCE_DIR") or os.path.join(VERIF, "evidence")
 
 
 def load_known():
